@@ -312,12 +312,13 @@ theorem C13_cast_float_literal (f : FloatD) (hf : f.Ok) :
 
 example : (FloatD.mk (some true) "1".toList (some "5".toList) (some (true, some true, "3".toList))).render = "-1.5E-3".toList := by decide
 
-/-! ### inline arrays (flat case proved; nested arrays, numpy shape rules and tables: correspondence only) -/
+/-! ### inline arrays (value string level; the text-level statements, element casts, string elements and the
+    rejection of ragged arrays follow further down) -/
 
 /-- `json.loads` + the shape test of `cast_value` on a flat inline array `[t1,…,tn]` (elements are
     words without blanks, commas, brackets): the elements come back in order with shape `[n]`, and
     the value is the array of the element casts whenever the declared dimension admits `n`.
-    Partial: nested arrays are not covered by a theorem. -/
+    Partial: depth 1 only (all depths: `C13_inline_array`; from the text of the line: `C13_inline_array_text`). -/
 theorem C13_inline_array_flat_partial (ty : Ty) (ds : List Dim) (toks : List Str) (atoms : List Atom)
     (hne : toks ≠ []) (hok : ∀ t ∈ toks, TokOk t)
     (hel : (toks.map Tok.bare).mapM (tokAtom ty) = .ok atoms) (hd : checkDims ds [toks.length] = true) :
@@ -481,6 +482,19 @@ theorem C13_float_array_text (tbl : List UnitRow) (k : Nat) (nm : Str) (a : Nat)
   (C13_inline_array_text tbl k nm a (.float w) dims b c s sh _ _ ds unit cm hn hd hu htail
     (fun n x h => ⟨.inr rfl, hunit n x h⟩) hr hsh (rendered_float_plain fs (fun f hf => (hok f hf).1) hr) hds
     (C13_array_float_elements fs hok).2 hcd).2.2
+
+/-- **Boolean arrays of any nesting depth, from the text to the value.** -/
+theorem C13_bool_array_text (tbl : List UnitRow) (k : Nat) (nm : Str) (a : Nat) (dims : Option (List DimD)) (b c : Nat)
+    (s : Str) (sh : List Nat) (bs : List Bool) (ds : List Dim) (cm : Option (Nat × Str))
+    (hn : NameOk nm) (hd : DimsOk dims) (htail : NoEsc (renderTail none cm))
+    (hr : Rendered s sh (bs.map (fun b => Tok.bare (if b then "true".toList else "false".toList)))) (hsh : sh ≠ [])
+    (hds : dimsValue dims = some ds) (hcd : checkDims ds sh = true) :
+    parseLines (mkParams tbl)
+        [List.replicate k ' ' ++ (definePrefix nm a .bool dims b c ++ (s ++ renderTail none cm))] =
+      .ok [{ name := nm, ty := .bool, info := {}, dims := some ds, units := none,
+             value := some (.array sh (bs.map Atom.bool)), declared := false }] :=
+  (C13_inline_array_text tbl k nm a .bool dims b c s sh _ _ ds none cm hn hd (by intro n x h; cases h) htail
+    (by intro n x h; cases h) hr hsh (rendered_bool_plain bs hr) hds (C13_array_bool_elements bs).2 hcd).2.2
 
 /-- **Ragged arrays are rejected.**  In `[item,…,item,BAD…` with `n ≥ 1` items of one common shape followed by an
     item of a different shape (both rendered nested lists of any depth; what follows `BAD` is arbitrary text
